@@ -772,3 +772,55 @@ def mon_stale_id(case):
             if e.startswith(f"{ws[1]}.{what}=") and not e.startswith(f"{ws[1]}.{what}=403,Extension.UnknownExtensionIdentifier"):
                 out.append(f"step {i+1}: {ws[1]}'s {what} carrying the identifier of an earlier generation was answered {e.split('=',1)[1]}, want 403 Extension.UnknownExtensionIdentifier")
     return out
+
+
+def mon_accept_current(case):
+    """C02 (model-free), the positive half of "accepted only for the current id and only the first time":
+    the FIRST submission for the invocation the runtime holds — delivered by its latest next, nothing
+    submitted for it yet, and nothing having happened since the delivery except calls that were refused
+    (stale / unknown ids, wrong states, routing) — is accepted (202, or 413 for an oversized response).
+    A refused submission must not have used it up: "no effect on the runtime's protocol state or on
+    later invocations"."""
+    out = []
+    cur, fresh, deadline = None, False, None
+    for i, (ws, obs, side) in enumerate(case["steps"]):
+        es = entries(obs)
+        now = None
+        for x in side:
+            m = re.search(r"@(\d+)$", x)
+            if m:
+                now = int(m.group(1))
+        # a delivery in this step (judged from the next step on; whatever else this step shows comes after it
+        # or with it and is taken as a disturbance below)
+        for e in es:
+            m = re.match(r"rt\.next=200,(id#\d+),", e)
+            if m and m.group(1) != cur:
+                cur, fresh, deadline = m.group(1), True, None
+        # anything that may legitimately end or disturb the invocation in flight
+        if ws[0] in ("sleep", "exit", "reset", "shutdown", "restore", "beh", "release", "invoke", "dinvoke", "ext", "int") and ws[0] not in ("invoke",):
+            if ws[0] in ("ext", "int"):
+                # extension calls cannot touch the runtime's submission — unless they report an error (fatal for the invocation)
+                if len(ws) > 2 and ws[2] in ("initerror", "exiterror") and any(re.search(r"\.(initerror|exiterror)=2", e) for e in es):
+                    fresh = False
+            else:
+                fresh = False
+        if any(e.startswith(("sup term", "sup kill", "sup exited", "caller")) or e.startswith("ev invokeRuntimeDone") for e in es):
+            fresh = False
+        if ws[0] == "rt":
+            call = ws[1]
+            if call in ("slowresponse", "slowerror") and (ws[2] == "cur" or ws[2] == cur):
+                fresh = False        # a submission for the current id is under way
+            elif call in ("response", "error") and (ws[2] == "cur" or ws[2] == cur):
+                ans = next((e.split("=", 1)[1] for e in es if e.startswith(f"rt.{call}=")), None)
+                late = deadline is not None and now is not None and now > deadline - 150
+                if fresh and ans is not None and not late and not ans.startswith(("202", "413")) and "mode=" not in " ".join(ws):
+                    out.append(f"step {i+1}: the first submission for the invocation in flight ({cur}, delivered by the runtime's latest next, nothing else "
+                               f"submitted for it, only refused calls since) was answered {ans} instead of being accepted")
+                fresh = False        # accepted, consumed (bad mode header) or judged: one submission per invocation
+            elif call in ("initerror", "restoreerror") and any(re.search(r"rt\.(initerror|restoreerror)=2", e) for e in es):
+                fresh = False
+        for x in side:
+            m = re.match(r"deadline rt (id#\d+) (\d+)", x)
+            if m and m.group(1) == cur:
+                deadline = int(m.group(2))
+    return out
